@@ -25,6 +25,7 @@ ob_name = z3.Function('ob_name', Ob, ValS)      # the two fields a rigid.Ob is d
 ob_z = z3.Function('ob_z', Ob, IntS)
 mk_ob = z3.Function('mk_ob', ValS, IntS, Ob)
 
+adjpow = z3.Function('ty_adjpow', TyS, IntS, TyS)     # z-fold adjoint of a type: z < 0 left adjoints, z > 0 right adjoints
 tyl = z3.Function('ty_l', TyS, TyS)      # left / right adjoint of a rigid type (reverses the order)
 tyr = z3.Function('ty_r', TyS, TyS)
 
